@@ -191,7 +191,8 @@ def run(chk, repo, tier):
             continue
         wa = st['wave'][0].single_atom() if isinstance(st['wave'][0], Poly) else None
         va = st['value'][0].single_atom() if isinstance(st['value'][0], Poly) else None
-        if wa is None or va is None or not is_app(wa, 'hstack') or not is_app(va, 'hstack'):
+        joined = ('hstack', 'concatenate', 'r_')
+        if wa is None or va is None or not is_app(wa, joined) or not is_app(va, joined) or len(wa[2]) != 1 or len(va[2]) != 1:
             continue
         wt, vt = wa[2][0], va[2][0]
         if not (isinstance(wt, Tup) and isinstance(vt, Tup) and len(wt) == 3 and len(vt) == 3):
